@@ -82,6 +82,11 @@ def universes_for(w, cfg):
     out = {"none": (None, frozenset(range(nv)))}
     if cfg["universes"] == "none-only":
         return out
+    if cfg["universes"] == "few":
+        mid = nv // 2
+        for s in (tuple(range(nv)), tuple(i for i in range(nv) if i != mid)):
+            out["m" + "-".join(map(str, s))] = (Universe(vertices=[w.v[i] for i in s]), frozenset(s))
+        return out
     if cfg["universes"] == "all-subsets":
         subsets = [s for n in range(1, nv + 1) for s in itertools.combinations(range(nv), n)]
     else:  # none / all / all-minus-one
@@ -128,7 +133,10 @@ def evaluate(spec, seq, w, cfg, mode, w_b=None):
                     table.append(("exc", None))
             res_names = cfg["res_with_via"] if vn != "none" else cfg["res"]
             for uname, (uni, members) in unis.items():
-                for s in sorted(members):
+                starts = sorted(members)
+                if cfg.get("starts") == "few":
+                    starts = sorted({0, nv // 2, nv - 1} & set(members))
+                for s in starts:
                     # reach closure through the table
                     R = [s]
                     raised = False
@@ -225,3 +233,6 @@ REDUCED = dict(universes="all-minus-one", dirs=("FWD", "ANY", "BWD"), unks=("NBR
                via=("none", "selv", "sell"), res=("none", "sel"), res_with_via=("none",))
 LEAN = dict(universes="none-only", dirs=("FWD", "ANY", "BWD"), unks=("ERR",),
             via=("none",), res=("none",), res_with_via=("none",))
+# for the graph families (larger graphs): few universes, few starts
+FAMILY = dict(universes="few", starts="few", dirs=("FWD", "ANY", "BWD"), unks=("ERR",),
+              via=("none", "selv"), res=("none", "sel"), res_with_via=("none",))
